@@ -14,10 +14,10 @@ CHECKS = {
          "Every truncation, single-byte perturbation and RDLENGTH value of reference encodings of all 40 types, messages holding thousands of records of one type, all short buffers, all bodies up to 6 (7) bytes over a 12-symbol alphabet, generated pointer graphs up to 64 KiB and mutated reference encodings are parsed under panic capture, a per-thread heap meter and a thread-CPU watchdog; thorough adds libFuzzer campaigns with the same oracle in-target. Exploration: absence is not established beyond the enumerated bounds.",
          "Heap bound 64 KiB + 1024*len calibrated on the densest legitimate input; time asserted only through the 5 s / 20 s CPU watchdog; inputs capped at 65535 bytes.", "4/C01"),
  "C02": ("property-based round trip: abstract packet -> public constructors -> build_bytes_vec -> parse -> field-by-field observation",
-         "Generated packets over every typed variant, unknown and empty RDATA, binary labels, boundary integers, EDNS, named codes, plus packets assembled through the text / map / setter based constructors; the parsed packet is observed through public accessors and byte hooks and compared with the generating model, not with the library's own PartialEq.",
+         "Generated packets over every typed variant, unknown and empty RDATA, binary labels, boundary integers, EDNS, named codes, plus suffix-sharing packets of up to 65535 bytes and packets assembled through the text / map / setter based constructors; the parsed packet is observed through public accessors and byte hooks and compared with the generating model, not with the library's own PartialEq.",
          "Trusts the bridge (checks keyed by field name) and the documented construction domain (exclusions listed in the evidence assumptions).", "4/C02"),
  "C03": ("property-based differential: compressed vs plain serialisation vs model, suffix-sharing names, sizes straddling 16 KiB",
-         "Generated suffix-sharing packets with filler that moves names just below / at / above offset 16383 and up to 65535 bytes; compressed and plain outputs must parse to the model and compressed must not be longer.",
+         "Generated suffix-sharing packets with filler that moves names just below / at / above offset 16383 and up to 65535 bytes; compressed and plain outputs must parse to the model and compressed must not be longer; the compressed form is also written at a non-zero stream offset and through a writer accepting 1..3 bytes per call.",
          "Same exclusions as C02; large messages are a weighted minority of cases (reported in coverage.classes).", "4/C03"),
  "C04": ("property-based + capacity enumeration: independent envelope walker and byte equality across writer configurations",
          "Generated packets, packets built through the alternative constructors and packets obtained from the parser x {plain, compressed} x {Vec, growable cursor at offset 0/2/k over empty and pre-filled storage, writers accepting 1/3/7 bytes per call, fixed slices and cursors of every capacity 0..len+2}; framing checked by an independent RFC 1035 walker plus the schema decoder.",
@@ -40,28 +40,28 @@ CHECKS = {
  "C10": ("property-based differential against an independent declarative RFC schema (encoder + decoder), byte for byte, plus structural-rule and mutation cases, anchored on dnspython samples",
          "For each of the 40 types: reference encoding -> parse -> values; values -> build -> bytes equal the reference encoding; rule-breaking encodings (LOC version, SVCB key order, NSEC window order, inner length overruns) and single-byte mutations judged by the reference decoder; externally produced samples decode identically.",
          "The schema is my transcription of the RFCs (DESIGN.md appendix A), cross-checked against 30 dnspython-made files at every run.", "4/C10"),
- "C11": ("property-based + exhaustive header words: parse -> build -> parse metamorphic relation on parser-accepted inputs",
+ "C11": ("property-based + exhaustive header words: parse -> build (vector-returning and writer-based entry points) -> parse metamorphic relation on parser-accepted inputs, incl. small messages whose plain form exceeds 64 KiB",
          "Reference encodings with foreign compression, stray OPT records, any opcode / response code, all 65536 header words, and accepted mutated encodings; after re-serialisation (plain and compressed) every observable field must be equal.",
          "Observation through public accessors and byte hooks; opcode()/rcode() compared as the caller sees them.", "4/C11"),
- "C12": ("property-based: every public observer applied to every part of parser-accepted packets under panic capture, with UTF-8 metamorphic checks",
+ "C12": ("property-based: every public observer (incl. Display / Debug with width, precision, alignment and alternate flags) applied to every part of parser-accepted packets under panic capture, with UTF-8 metamorphic checks",
          "Inputs biased to invalid UTF-8, NUL, dots, backslashes, empty and maximal strings; Debug/Display/clone/into_owned/eq/hash/suffix algebra/matching/TXT conversions are all invoked on every part.",
          "WireFormat::len is crate-private and not an observer.", "4/C12"),
- "C13": ("model-based testing: bounded-exhaustive catalogue + random histories against a set-based reference store and matcher (lower/upper bound on answers)",
+ "C13": ("model-based testing: bounded-exhaustive catalogue + random histories over every record type against a set-based reference store and matcher (lower/upper bound on answers)",
          "Every subset of <= 3 (4) records of a catalogue whose names collide under concatenation x 288 questions and sampled pairs, plus random add/remove/clear histories and queries; answers must lie between the must-answer and may-answer sets; additional records, id, flags, unicast and no-reply conditions checked.",
          "Lowercase names only; MAILA/AXFR/IXFR matching not claimed; driven through the simple_mdns::verif hook.", "4/C13"),
- "C14": ("property-based sequences through a step-for-step copy of the three receive loops under panic capture and a real RwLock, plus sampled fault injection over real loopback multicast sockets",
+ "C14": ("property-based sequences through a step-for-step copy of the three receive loops under panic capture and a real RwLock (supervised child process: a stack overflow or abort is decided by a crash journal), an alignment sweep of replies beyond 16 KiB, plus sampled fault injection over real loopback multicast sockets (sync and async services and resolvers)",
          "Datagram sequences (empty, short, random, mutated, hostile names, large) against arbitrary stores; no panic, lock not poisoned, replies parse, store still answers; a real responder and discovery service receive generated datagrams between two probe queries.",
          "The pure pipeline copies the loop bodies; only the socket section sees edits to the loops. Interleavings on the shared store are not explored. Socket section makes no claim without usable multicast.", "4/C14"),
- "C15": ("model-based testing: advertise -> compressed wire -> ingest -> report, two-sided comparison with the advertised set; escape/unescape round trip",
+ "C15": ("model-based testing: advertise (full, partial, reply-style) -> compressed wire -> ingest (sync / async) -> virtual time -> report, two-sided comparison with what the receptions imply; escape/unescape round trip",
          "Peers, repeated announcements and noise (own instance, service-name PTR, colliding foreign services, deeper names) are ingested with the receive loop's own function and read back as get_known_services does; reported set must equal the advertised set exactly.",
          "Driven through the simple_mdns::verif hook with the store initialised as ServiceDiscovery::new does; the async variant shares the store and from_records only.", "4/C15"),
- "C16": ("property-based: clone / into_owned / built-vs-parsed triples compared by ==, observation, hash and bytes; set-valued values rebuilt in permuted orders",
+ "C16": ("property-based: clone / into_owned / built-vs-parsed triples compared by ==, observation, hash and bytes; twins differing in one field, in padding, in letter case, in class or in the way their type is named (== implies equal hashes); set-valued values rebuilt in permuted orders",
          "Three versions of every value (built, borrowed from plain buffer, borrowed from compressed buffer) and their clones / owned copies must be equal, hash equally and serialise identically; InstanceInformation rebuilt 32 times in rotated/reversed insertion orders.",
          "DefaultHasher::new() for hash comparison; HashSet RandomState only affects how fast an order-dependent Hash is caught.", "4/C16"),
- "C17": ("bounded-exhaustive enumeration of strings / lengths / name pairs against a grammar and suffix oracle",
+ "C17": ("bounded-exhaustive enumeration of strings / lengths / name pairs against a grammar and suffix oracle, through Name::new and Name::try_from",
          "All strings up to length 6 (7 thorough) over the 8-symbol alphabet, all label lengths 0..70, wire lengths 240..260, all pairs of small names: exhaustive within the stated bounds, sampled beyond them.",
          "Grammar written from the statement; 'letter/digit' read as ASCII.", "4/C17"),
- "C18": ("exhaustive enumeration of all 16-bit codes and the full record x question matrices against an IANA table",
+ "C18": ("exhaustive enumeration of all 16-bit codes and the full record x question x class x cache-flush matrices against an IANA table, plus property-based checks that records parsed from mutated encodings report the TYPE / CLASS of their wire entry",
          "Complete enumeration of all 65536 codes through the four conversions and of the (record type, question type) and (class, qclass) matrices, for records both constructed and parsed.",
          "IANA registry values typed into checks/c18.rs; MAILA/AXFR/IXFR matching not covered (statement silent).", "4/C18"),
  "C19": ("property-based round trips and a reference splitter; exhaustive length enumeration for construction limits",
